@@ -375,3 +375,30 @@ Proof.
   destruct (merge_total mn mx w p cp' de d0 H0 Hcp') as (d & Hd & A & B & C & _).
   exists d. split; [exact Hd|]. split; [eapply merge_valid; exact Hd|]. auto.
 Qed.
+
+(* with enough fuel a split always reports (VSplit.preferred_height divides the widths first) *)
+Lemma split_report_total : forall fuel orient axis align pad cs width,
+  valid pad -> Forall valid (map fst cs) -> Forall valid (map snd cs) ->
+  (divide_fuel (all_children align pad (map fst cs)) width <= fuel)%nat ->
+  exists d, split_report fuel orient axis align pad cs width = inl (COk d) /\ valid d.
+Proof.
+  intros fuel orient axis align pad cs width Hp Hw Hh Hf.
+  assert (Hinl : exists r, split_report fuel orient axis align pad cs width = inl r).
+  { unfold split_report. destruct (orient =? 0).
+    - destruct (axis =? 0); [destruct cs|]; eauto.
+    - destruct (axis =? 0); [eauto|].
+      destruct (divide_total false (all_children align pad (map fst cs)) width fuel
+                  (all_children_valid align pad _ Hp Hw) Hf) as [(E & _)|(l & E & _)]; rewrite E; eauto. }
+  destruct Hinl as (r & Hr).
+  destruct (split_report_valid _ _ _ _ _ _ _ _ Hp Hw Hh Hr) as (d & -> & Hv).
+  exists d. auto.
+Qed.
+
+(* an explicit width= / height= built by the Dimension constructor *)
+Lemma split_report_ov_ctor_valid : forall mn mx w p fuel orient axis align pad cs width d,
+  split_report_ov (Some (dimension mn mx w p)) fuel orient axis align pad cs width = inl (COk d) ->
+  valid d /\ dimension mn mx w p = COk d.
+Proof.
+  intros mn mx w p fuel orient axis align pad cs width d H. unfold split_report_ov in H.
+  injection H as H. split; [eapply dimension_valid; exact H|exact H].
+Qed.
